@@ -3,21 +3,91 @@
 From Coq Require Import List NArith ZArith QArith Qabs Bool Arith Lia Permutation.
 Import ListNotations.
 From FP Require Import Lin Blocks BlocksProofs PathEnc Euler EulerProofs1 EulerProofs4 DagDecode PathEncProofs
-                       ErrEnc ErrEncProofs ErrEncProofs2 ErrEncProofs3.
+                       PathEncComplete WfCheck CheckedInstances
+                       ErrEnc ErrEncProofs ErrEncProofs2 ErrEncProofs3 ErrEncComplete ErrEncOptimal ErrEncKlae ErrEncOptimal2
+                       ErrEncGiven ErrEncGivenMpe ErrEncChecked ErrEncExamples.
 Local Close Scope Q_scope.
 
-(* full statement (not proved as one theorem): the encoding is also COMPLETE, i.e. every choice of k
-   source-to-sink paths, weights and slacks satisfying the path-error inequality extends to a
-   satisfying assignment with the same sum of slacks — for all option settings.  Proved: soundness
-   (all settings without given weights), the feasibility witness for k >= width (no length factors,
-   no subpath constraints, premise: a path has at most |V| edges); refuted: feasibility with length
-   factors (two open findings). *)
-Definition C08_full_statement : Prop :=
-  forall (M : kmpe_inst) (x : N -> PathEnc.edge -> Z),
-    let I := m_err M in
-    e_given I = None -> p_cons (e_base I) = [] -> unit_flows (eG I) (eK I) x ->
-    (forall e, In e (basic_edges I) -> exists i, In i (layers (eK I)) /\ x i e = 1%Z) ->
-    exists a, sat a (encode_kmpe M).
+(* THE property with executable premises (kmpe_premises_b is evaluated by the extracted driver on every E1 instance), for
+   the model without path-length factors and given weights (with subpath constraints, with length attribute):
+   (feasible) the LP is satisfiable iff a choice of k source-to-sink paths, weights and slacks exists; in particular every
+   k paths that cover all non-ignored edges make it feasible (k >= width);
+   (optimal) the objective of an optimal satisfying assignment (= what the solver returns, DESIGN §4) is the minimum of the
+   slack sum over ALL choices of k paths covering the subpath constraints, non-negative weights and slacks of the requested
+   type (no bound: w_max is removed by clipping) with  scale_e * |f(e) - sum_i w_i [e on i]| <= sum_i slack_i [e on i]. *)
+Theorem C08_kmpe_optimal_checked : forall (M : kmpe_inst) (a : var -> Q) (order : list node),
+  kmpe_premises_b M order = true -> e_given (m_err M) = None -> m_pieces M = [] -> p_allow_empty (e_base (m_err M)) = false ->
+  sat a (encode_kmpe M) -> (forall b, sat b (encode_kmpe M) -> (objective a (encode_kmpe M) <= objective b (encode_kmpe M))%Q) ->
+  (exists P w sl, kmpe_choice_unbounded M P w sl /\ (sumq sl (layers (eK (m_err M))) == objective a (encode_kmpe M))%Q) /\
+  (forall P w sl, kmpe_choice_unbounded M P w sl -> (objective a (encode_kmpe M) <= sumq sl (layers (eK (m_err M))))%Q).
+Proof. exact kmpe_optimal_checked. Qed.
+Print Assumptions C08_kmpe_optimal_checked.
+
+Theorem C08_kmpe_feasible_iff_checked : forall (M : kmpe_inst) (order : list node),
+  kmpe_premises_b M order = true -> e_given (m_err M) = None -> m_pieces M = [] -> p_allow_empty (e_base (m_err M)) = false ->
+  ((exists a, sat a (encode_kmpe M)) <-> (exists P w sl, kmpe_choice M P w sl)).
+Proof. exact kmpe_feasible_iff_checked. Qed.
+Print Assumptions C08_kmpe_feasible_iff_checked.
+
+(* feasibility for k >= width: k paths covering every non-ignored edge (and the constraints) suffice *)
+Theorem C08_kmpe_feasible_ge_width : forall (M : kmpe_inst) (P : N -> list node),
+  let I := m_err M in
+  e_given I = None -> m_pieces M = [] -> wf_graph (eG I) -> p_allow_empty (e_base I) = false ->
+  kmpe_side M -> err_domain I ->
+  st_paths (eG I) (eK I) P ->
+  (forall e, In e (basic_edges I) -> exists i, In i (layers (eK I)) /\ mem_edge e (pairs (P i)) = true) ->
+  constraints_covered (e_base I) P ->
+  exists a, sat a (encode_kmpe M) /\ (objective a (encode_kmpe M) == sumq (fun _ => max_flow I) (layers (eK I)))%Q.
+Proof. exact kmpe_feasible_ge_width_paths. Qed.
+Print Assumptions C08_kmpe_feasible_ge_width.
+
+(* completeness: every choice within the bounds is a satisfying assignment with objective = its slack sum *)
+Theorem C08_kmpe_complete : forall (M : kmpe_inst) (P : N -> list node) (w sl : N -> Q),
+  let I := m_err M in
+  e_given I = None -> m_pieces M = [] -> wf_graph (eG I) -> p_allow_empty (e_base I) = false ->
+  (forall c e, In c (p_cons (e_base I)) -> In e c -> (0 <= elen (e_base I) e)%Q) -> lengths_ok M ->
+  kmpe_choice M P w sl ->
+  exists a, sat a (encode_kmpe M) /\ (objective a (encode_kmpe M) == sumq sl (layers (eK I)))%Q /\
+            (forall i, a (W i) = w i /\ a (Slack i) = sl i) /\ (forall u v i, a (Edge u v i) = onq P i (u, v)).
+Proof. exact kmpe_complete. Qed.
+Print Assumptions C08_kmpe_complete.
+
+(* soundness in decoded form, executable premises: every satisfying assignment IS a choice *)
+Theorem C08_kmpe_enc_sound_checked : forall (M : kmpe_inst) (a : var -> Q) (order : list node),
+  kmpe_premises_b M order = true -> e_given (m_err M) = None -> m_pieces M = [] -> p_allow_empty (e_base (m_err M)) = false ->
+  sat a (encode_kmpe M) ->
+  kmpe_choice M (dec_path (eG (m_err M)) a (length order)) (fun i => a (W i)) (fun i => a (Slack i)) /\
+  (sumq (fun i => a (Slack i)) (layers (eK (m_err M))) == objective a (encode_kmpe M))%Q.
+Proof. exact kmpe_enc_sound_checked. Qed.
+Print Assumptions C08_kmpe_enc_sound_checked.
+
+(* optimality over the choices the LP represents (bounded by w_max), rank form *)
+Theorem C08_kmpe_optimal : forall (M : kmpe_inst) (a : var -> Q) (rank : node -> nat) (Rm : nat),
+  let I := m_err M in
+  e_given I = None -> m_pieces M = [] -> wf_graph (eG I) -> p_allow_empty (e_base I) = false ->
+  (forall u v, In (u, v) (g_edges (eG I)) -> (rank u < rank v)%nat) -> (forall v, (rank v <= Rm)%nat) ->
+  kmpe_side M ->
+  sat a (encode_kmpe M) -> (forall b, sat b (encode_kmpe M) -> (objective a (encode_kmpe M) <= objective b (encode_kmpe M))%Q) ->
+  (exists P w sl, kmpe_choice M P w sl /\ (sumq sl (layers (eK I)) == objective a (encode_kmpe M))%Q) /\
+  (forall P w sl, kmpe_choice M P w sl -> (objective a (encode_kmpe M) <= sumq sl (layers (eK I)))%Q).
+Proof. exact kmpe_optimal. Qed.
+Print Assumptions C08_kmpe_optimal.
+
+(* solution_weights_superset (no subpath constraints, no length factors): layer i carries the constant weight ws[i], may be
+   empty, at most k_orig layers are used; the LP optimum is the minimum of the slack sum over all such choices with slacks
+   within [0, w_max] *)
+Theorem C08_kmpe_given_optimal : forall (M : kmpe_inst) (ws : list Q) (a : var -> Q) (rank : node -> nat) (Rm : nat),
+  e_given (m_err M) = Some ws -> m_pieces M = [] -> wf_graph (eG (m_err M)) -> p_allow_empty (e_base (m_err M)) = true ->
+  p_cons (e_base (m_err M)) = [] -> length ws = eK (m_err M) -> lengths_ok M ->
+  (forall u v, In (u, v) (g_edges (eG (m_err M))) -> (rank u < rank v)%nat) -> (forall v, (rank v <= Rm)%nat) ->
+  sat a (encode_kmpe M) -> (forall b, sat b (encode_kmpe M) -> (objective a (encode_kmpe M) <= objective b (encode_kmpe M))%Q) ->
+  (exists P sl, kmpe_given_choice M ws P sl /\ (sumq sl (layers (eK (m_err M))) == objective a (encode_kmpe M))%Q) /\
+  (forall P sl, kmpe_given_choice M ws P sl -> (objective a (encode_kmpe M) <= sumq sl (layers (eK (m_err M))))%Q).
+Proof. exact kmpe_given_optimal. Qed.
+Print Assumptions C08_kmpe_given_optimal.
+
+(* NOT covered by the completeness / optimality theorems: path-length factors (feasibility refuted below: open findings),
+   and given weights together with subpath constraints. *)
 
 Theorem C08_kmpe_enc_sound : forall (M : kmpe_inst) (a : var -> Q) (rank : node -> nat) (Rm : nat),
   let I := m_err M in let G := eG I in let k := eK I in
@@ -47,21 +117,6 @@ Theorem C08_kmpe_factor_sound : forall (M : kmpe_inst) (a : var -> Q) (i : N),
   (a (Len i) == sumq (fun e => plen M e * a (Edge (fst e) (snd e) i)) (g_edges (eG (m_err M))))%Q.
 Proof. exact kmpe_factor_sound. Qed.
 Print Assumptions C08_kmpe_factor_sound.
-
-Theorem C08_kmpe_feasible_ge_width_partial : forall (M : kmpe_inst) (x : N -> PathEnc.edge -> Z),
-  let I := m_err M in
-  e_given I = None -> p_cons (e_base I) = [] -> p_allow_empty (e_base I) = false ->
-  m_pieces M = [] -> m_len M = None ->
-  unit_flows (eG I) (eK I) x ->
-  (forall e, In e (basic_edges I) -> exists i, In i (layers (eK I)) /\ x i e = 1%Z) ->
-  (forall i, In i (layers (eK I)) -> (sumq (fun e => inject_Z (x i e)) (g_edges (eG I)) <= inject_Z (Z.of_nat (length (g_nodes (eG I)))))%Q) ->
-  (forall e, In e (basic_edges I) -> (0 <= flow_of I e)%Q /\ (0 <= scale_of I e <= 1)%Q) ->
-  (0 <= max_flow I <= w_max I)%Q -> (e_int I = true -> is_int (max_flow I)) ->
-  let a := kmpe_assign M x (max_flow I) in
-  sat a (encode_kmpe M) /\ (forall i, a (W i) = 0%Q) /\ (forall i, a (Slack i) = max_flow I) /\
-  (objective a (encode_kmpe M) == inject_Z (Z.of_nat (eK I)) * max_flow I)%Q.
-Proof. exact kmpe_feasible_ge_width. Qed.
-Print Assumptions C08_kmpe_feasible_ge_width_partial.
 
 (* with path-length factors the full statement is false of the faithful model (open findings) *)
 Theorem C08_kmpe_factors_gt1_refuted : exists M,
@@ -98,3 +153,17 @@ Print Assumptions C08_kmpe_is_valid_old_refuted.
 (* non-vacuity: the same instance with factor 1 is satisfiable *)
 Example C08_factor_one_satisfiable : sat (wit_kmpe_a 1%Q 1%Q 4%Q [1%Q]) (encode_kmpe (wit_kmpe 1%Q 1%Q)).
 Proof. exact kmpe_factor_one_satisfiable. Qed.
+
+(* non-vacuity of C08_kmpe_optimal_checked: the instance passes the executable premises and has an optimal satisfying
+   assignment (optimum 2/3), and its decoding is a choice *)
+Example C08_checked_nonvacuous :
+  kmpe_premises_b wit_kmpe_f wit_order = true /\ e_given (m_err wit_kmpe_f) = None /\ m_pieces wit_kmpe_f = [] /\
+  p_allow_empty (e_base (m_err wit_kmpe_f)) = false /\
+  sat wit_kmpe_f_a (encode_kmpe wit_kmpe_f) /\
+  (forall b, sat b (encode_kmpe wit_kmpe_f) -> (objective wit_kmpe_f_a (encode_kmpe wit_kmpe_f) <= objective b (encode_kmpe wit_kmpe_f))%Q) /\
+  (objective wit_kmpe_f_a (encode_kmpe wit_kmpe_f) == 2 # 3)%Q.
+Proof. exact kmpe_checked_nonvacuous. Qed.
+
+Example C08_given_example : sat (gmasg wit_given_M wit_given_P (fun _ => 2%Q)) (encode_kmpe wit_given_M) /\
+                            (objective (gmasg wit_given_M wit_given_P (fun _ => 2%Q)) (encode_kmpe wit_given_M) == 2)%Q.
+Proof. exact kmpe_given_example. Qed.
